@@ -14,6 +14,10 @@ from concurrent.futures import ThreadPoolExecutor
 from . import common
 
 
+# hint sites other than GlGadgets' four inside the extension gadgets of the whole verifier are probed with generic alternatives
+FOREIGN = (("Extension",), ("testdata",))
+
+
 def run(ctx):
     ctx.rule = ("operation x operand tuple x mode; operands: every third drawn from the edge-coordinate set, others seeded random; exponents: fixed boundary set + "
                 "seeded; list lengths {0,1,2,3,7,16,100,300} + seeded; distinct = distinct operand tuples per operation")
@@ -24,7 +28,7 @@ def run(ctx):
     jobs = []
     for mode in ("native", "plain"):
         m = 10 if thorough else 2
-        for part, nr in (("binary", 60 * m), ("unary", 40 * m), ("zero", 0), ("exp", 15 * m), ("lists", 3 * m), ("algebra", 15 * m)):
+        for part, nr in (("binary", 60 * m), ("unary", 40 * m), ("zero", 0), ("exp", 15 * m), ("batch", 4 * m), ("lists", 3 * m), ("algebra", 15 * m)):
             if mode == "plain" and part in ("lists",):
                 nr = 0
             for i in range((6 if thorough else 3) if part in ("binary", "algebra", "exp", "unary") else 1):
